@@ -114,69 +114,69 @@ macro_rules! nary_pure_harness {
     };
 }
 
-//@ob fn="<SumStream<T,N,E> as Getter<T,E>>::get" at=src/streams/math.rs:26 prop=C02,C03,C16 bounded="arity 1 (const generic; complete for this N)" clause="N=1, all inputs symbolic at once: get()==spec: earliest input error returned unchanged; absent inputs skipped, absent iff all absent; present values left-folded with += in input order; timestamp = newest contributing (C03); holds for every content of the unwritten MaybeUninit slots (C16)"
+//@ob fn="<SumStream<T,N,E> as Getter<T,E>>::get" at=src/streams/math.rs:26 prop=C02,C03,C16 instance="arity 1 (const generic; complete for this N)" clause="N=1, all inputs symbolic at once: get()==spec: earliest input error returned unchanged; absent inputs skipped, absent iff all absent; present values left-folded with += in input order; timestamp = newest contributing (C03); holds for every content of the unwritten MaybeUninit slots (C16)"
 nary_harness!(c02_sum_n1, SumStream, tok_add_assign, 1, 3, [s0]);
-//@ob fn="<SumStream<T,N,E> as Getter<T,E>>::get" at=src/streams/math.rs:26 prop=C02,C16 bounded="arity 1 (const generic; complete for this N)" clause="N=1, all inputs symbolic at once: purity: a second get() returns a result equal to the first (also independent of the unwritten MaybeUninit slots, C16), every input still holds the output it had and was not updated"
+//@ob fn="<SumStream<T,N,E> as Getter<T,E>>::get" at=src/streams/math.rs:26 prop=C02,C16 instance="arity 1 (const generic; complete for this N)" clause="N=1, all inputs symbolic at once: purity: a second get() returns a result equal to the first (also independent of the unwritten MaybeUninit slots, C16), every input still holds the output it had and was not updated"
 nary_pure_harness!(c02_sum_n1_pure, SumStream, 1, 3, [s0]);
-//@ob fn="<SumStream<T,N,E> as Getter<T,E>>::get" at=src/streams/math.rs:26 prop=C02,C03,C16 bounded="arity 2 (const generic; complete for this N)" clause="N=2, all inputs symbolic at once: get()==spec: earliest input error returned unchanged; absent inputs skipped, absent iff all absent; present values left-folded with += in input order; timestamp = newest contributing (C03); holds for every content of the unwritten MaybeUninit slots (C16)"
+//@ob fn="<SumStream<T,N,E> as Getter<T,E>>::get" at=src/streams/math.rs:26 prop=C02,C03,C16 instance="arity 2 (const generic; complete for this N)" clause="N=2, all inputs symbolic at once: get()==spec: earliest input error returned unchanged; absent inputs skipped, absent iff all absent; present values left-folded with += in input order; timestamp = newest contributing (C03); holds for every content of the unwritten MaybeUninit slots (C16)"
 nary_harness!(c02_sum_n2, SumStream, tok_add_assign, 2, 4, [s0, s1]);
-//@ob fn="<SumStream<T,N,E> as Getter<T,E>>::get" at=src/streams/math.rs:26 prop=C02,C16 bounded="arity 2 (const generic; complete for this N)" clause="N=2, all inputs symbolic at once: purity: a second get() returns a result equal to the first (also independent of the unwritten MaybeUninit slots, C16), every input still holds the output it had and was not updated"
+//@ob fn="<SumStream<T,N,E> as Getter<T,E>>::get" at=src/streams/math.rs:26 prop=C02,C16 instance="arity 2 (const generic; complete for this N)" clause="N=2, all inputs symbolic at once: purity: a second get() returns a result equal to the first (also independent of the unwritten MaybeUninit slots, C16), every input still holds the output it had and was not updated"
 nary_pure_harness!(c02_sum_n2_pure, SumStream, 2, 4, [s0, s1]);
-//@ob fn="<SumStream<T,N,E> as Getter<T,E>>::get" at=src/streams/math.rs:26 prop=C02,C03,C16 bounded="arity 3 (const generic; complete for this N)" clause="N=3, all inputs symbolic at once: get()==spec: earliest input error returned unchanged; absent inputs skipped, absent iff all absent; present values left-folded with += in input order; timestamp = newest contributing (C03); holds for every content of the unwritten MaybeUninit slots (C16)"
+//@ob fn="<SumStream<T,N,E> as Getter<T,E>>::get" at=src/streams/math.rs:26 prop=C02,C03,C16 instance="arity 3 (const generic; complete for this N)" clause="N=3, all inputs symbolic at once: get()==spec: earliest input error returned unchanged; absent inputs skipped, absent iff all absent; present values left-folded with += in input order; timestamp = newest contributing (C03); holds for every content of the unwritten MaybeUninit slots (C16)"
 nary_harness!(c02_sum_n3, SumStream, tok_add_assign, 3, 5, [s0, s1, s2]);
-//@ob fn="<SumStream<T,N,E> as Getter<T,E>>::get" at=src/streams/math.rs:26 prop=C02,C16 bounded="arity 3 (const generic; complete for this N)" clause="N=3, all inputs symbolic at once: purity: a second get() returns a result equal to the first (also independent of the unwritten MaybeUninit slots, C16), every input still holds the output it had and was not updated"
+//@ob fn="<SumStream<T,N,E> as Getter<T,E>>::get" at=src/streams/math.rs:26 prop=C02,C16 instance="arity 3 (const generic; complete for this N)" clause="N=3, all inputs symbolic at once: purity: a second get() returns a result equal to the first (also independent of the unwritten MaybeUninit slots, C16), every input still holds the output it had and was not updated"
 nary_pure_harness!(c02_sum_n3_pure, SumStream, 3, 5, [s0, s1, s2]);
-//@ob fn="<SumStream<T,N,E> as Getter<T,E>>::get" at=src/streams/math.rs:26 prop=C02,C03,C16 bounded="arity 4 (const generic; complete for this N)" clause="N=4, all inputs symbolic at once: get()==spec: earliest input error returned unchanged; absent inputs skipped, absent iff all absent; present values left-folded with += in input order; timestamp = newest contributing (C03); holds for every content of the unwritten MaybeUninit slots (C16)"
+//@ob fn="<SumStream<T,N,E> as Getter<T,E>>::get" at=src/streams/math.rs:26 prop=C02,C03,C16 instance="arity 4 (const generic; complete for this N)" clause="N=4, all inputs symbolic at once: get()==spec: earliest input error returned unchanged; absent inputs skipped, absent iff all absent; present values left-folded with += in input order; timestamp = newest contributing (C03); holds for every content of the unwritten MaybeUninit slots (C16)"
 nary_harness!(c02_sum_n4, SumStream, tok_add_assign, 4, 6, [s0, s1, s2, s3]);
-//@ob fn="<SumStream<T,N,E> as Getter<T,E>>::get" at=src/streams/math.rs:26 prop=C02,C16 bounded="arity 4 (const generic; complete for this N)" clause="N=4, all inputs symbolic at once: purity: a second get() returns a result equal to the first (also independent of the unwritten MaybeUninit slots, C16), every input still holds the output it had and was not updated"
+//@ob fn="<SumStream<T,N,E> as Getter<T,E>>::get" at=src/streams/math.rs:26 prop=C02,C16 instance="arity 4 (const generic; complete for this N)" clause="N=4, all inputs symbolic at once: purity: a second get() returns a result equal to the first (also independent of the unwritten MaybeUninit slots, C16), every input still holds the output it had and was not updated"
 nary_pure_harness!(c02_sum_n4_pure, SumStream, 4, 6, [s0, s1, s2, s3]);
-//@ob fn="<SumStream<T,N,E> as Getter<T,E>>::get" at=src/streams/math.rs:26 prop=C02,C03,C16 bounded="arity 5 (const generic; complete for this N)" clause="N=5, all inputs symbolic at once: get()==spec: earliest input error returned unchanged; absent inputs skipped, absent iff all absent; present values left-folded with += in input order; timestamp = newest contributing (C03); holds for every content of the unwritten MaybeUninit slots (C16)"
+//@ob fn="<SumStream<T,N,E> as Getter<T,E>>::get" at=src/streams/math.rs:26 prop=C02,C03,C16 instance="arity 5 (const generic; complete for this N)" clause="N=5, all inputs symbolic at once: get()==spec: earliest input error returned unchanged; absent inputs skipped, absent iff all absent; present values left-folded with += in input order; timestamp = newest contributing (C03); holds for every content of the unwritten MaybeUninit slots (C16)"
 nary_harness!(c02_sum_n5, SumStream, tok_add_assign, 5, 7, [s0, s1, s2, s3, s4]);
-//@ob fn="<SumStream<T,N,E> as Getter<T,E>>::get" at=src/streams/math.rs:26 prop=C02,C16 bounded="arity 5 (const generic; complete for this N)" clause="N=5, all inputs symbolic at once: purity: a second get() returns a result equal to the first (also independent of the unwritten MaybeUninit slots, C16), every input still holds the output it had and was not updated"
+//@ob fn="<SumStream<T,N,E> as Getter<T,E>>::get" at=src/streams/math.rs:26 prop=C02,C16 instance="arity 5 (const generic; complete for this N)" clause="N=5, all inputs symbolic at once: purity: a second get() returns a result equal to the first (also independent of the unwritten MaybeUninit slots, C16), every input still holds the output it had and was not updated"
 nary_pure_harness!(c02_sum_n5_pure, SumStream, 5, 7, [s0, s1, s2, s3, s4]);
-//@ob fn="<SumStream<T,N,E> as Getter<T,E>>::get" at=src/streams/math.rs:26 prop=C02,C03,C16 tier=thorough bounded="arity 6 (const generic; complete for this N)" clause="N=6, all inputs symbolic at once: get()==spec: earliest input error returned unchanged; absent inputs skipped, absent iff all absent; present values left-folded with += in input order; timestamp = newest contributing (C03); holds for every content of the unwritten MaybeUninit slots (C16)"
+//@ob fn="<SumStream<T,N,E> as Getter<T,E>>::get" at=src/streams/math.rs:26 prop=C02,C03,C16 tier=thorough instance="arity 6 (const generic; complete for this N)" clause="N=6, all inputs symbolic at once: get()==spec: earliest input error returned unchanged; absent inputs skipped, absent iff all absent; present values left-folded with += in input order; timestamp = newest contributing (C03); holds for every content of the unwritten MaybeUninit slots (C16)"
 nary_harness!(c02_sum_n6, SumStream, tok_add_assign, 6, 8, [s0, s1, s2, s3, s4, s5]);
-//@ob fn="<SumStream<T,N,E> as Getter<T,E>>::get" at=src/streams/math.rs:26 prop=C02,C16 tier=thorough bounded="arity 6 (const generic; complete for this N)" clause="N=6, all inputs symbolic at once: purity: a second get() returns a result equal to the first (also independent of the unwritten MaybeUninit slots, C16), every input still holds the output it had and was not updated"
+//@ob fn="<SumStream<T,N,E> as Getter<T,E>>::get" at=src/streams/math.rs:26 prop=C02,C16 tier=thorough instance="arity 6 (const generic; complete for this N)" clause="N=6, all inputs symbolic at once: purity: a second get() returns a result equal to the first (also independent of the unwritten MaybeUninit slots, C16), every input still holds the output it had and was not updated"
 nary_pure_harness!(c02_sum_n6_pure, SumStream, 6, 8, [s0, s1, s2, s3, s4, s5]);
-//@ob fn="<SumStream<T,N,E> as Getter<T,E>>::get" at=src/streams/math.rs:26 prop=C02,C03,C16 tier=thorough bounded="arity 7 (const generic; complete for this N)" clause="N=7, all inputs symbolic at once: get()==spec: earliest input error returned unchanged; absent inputs skipped, absent iff all absent; present values left-folded with += in input order; timestamp = newest contributing (C03); holds for every content of the unwritten MaybeUninit slots (C16)"
+//@ob fn="<SumStream<T,N,E> as Getter<T,E>>::get" at=src/streams/math.rs:26 prop=C02,C03,C16 tier=thorough instance="arity 7 (const generic; complete for this N)" clause="N=7, all inputs symbolic at once: get()==spec: earliest input error returned unchanged; absent inputs skipped, absent iff all absent; present values left-folded with += in input order; timestamp = newest contributing (C03); holds for every content of the unwritten MaybeUninit slots (C16)"
 nary_harness!(c02_sum_n7, SumStream, tok_add_assign, 7, 9, [s0, s1, s2, s3, s4, s5, s6]);
-//@ob fn="<SumStream<T,N,E> as Getter<T,E>>::get" at=src/streams/math.rs:26 prop=C02,C16 tier=thorough bounded="arity 7 (const generic; complete for this N)" clause="N=7, all inputs symbolic at once: purity: a second get() returns a result equal to the first (also independent of the unwritten MaybeUninit slots, C16), every input still holds the output it had and was not updated"
+//@ob fn="<SumStream<T,N,E> as Getter<T,E>>::get" at=src/streams/math.rs:26 prop=C02,C16 tier=thorough instance="arity 7 (const generic; complete for this N)" clause="N=7, all inputs symbolic at once: purity: a second get() returns a result equal to the first (also independent of the unwritten MaybeUninit slots, C16), every input still holds the output it had and was not updated"
 nary_pure_harness!(c02_sum_n7_pure, SumStream, 7, 9, [s0, s1, s2, s3, s4, s5, s6]);
-//@ob fn="<SumStream<T,N,E> as Getter<T,E>>::get" at=src/streams/math.rs:26 prop=C02,C03,C16 tier=thorough bounded="arity 8 (const generic; complete for this N)" clause="N=8, all inputs symbolic at once: get()==spec: earliest input error returned unchanged; absent inputs skipped, absent iff all absent; present values left-folded with += in input order; timestamp = newest contributing (C03); holds for every content of the unwritten MaybeUninit slots (C16)"
+//@ob fn="<SumStream<T,N,E> as Getter<T,E>>::get" at=src/streams/math.rs:26 prop=C02,C03,C16 tier=thorough instance="arity 8 (const generic; complete for this N)" clause="N=8, all inputs symbolic at once: get()==spec: earliest input error returned unchanged; absent inputs skipped, absent iff all absent; present values left-folded with += in input order; timestamp = newest contributing (C03); holds for every content of the unwritten MaybeUninit slots (C16)"
 nary_harness!(c02_sum_n8, SumStream, tok_add_assign, 8, 10, [s0, s1, s2, s3, s4, s5, s6, s7]);
-//@ob fn="<SumStream<T,N,E> as Getter<T,E>>::get" at=src/streams/math.rs:26 prop=C02,C16 tier=thorough bounded="arity 8 (const generic; complete for this N)" clause="N=8, all inputs symbolic at once: purity: a second get() returns a result equal to the first (also independent of the unwritten MaybeUninit slots, C16), every input still holds the output it had and was not updated"
+//@ob fn="<SumStream<T,N,E> as Getter<T,E>>::get" at=src/streams/math.rs:26 prop=C02,C16 tier=thorough instance="arity 8 (const generic; complete for this N)" clause="N=8, all inputs symbolic at once: purity: a second get() returns a result equal to the first (also independent of the unwritten MaybeUninit slots, C16), every input still holds the output it had and was not updated"
 nary_pure_harness!(c02_sum_n8_pure, SumStream, 8, 10, [s0, s1, s2, s3, s4, s5, s6, s7]);
-//@ob fn="<ProductStream<T,N,E> as Getter<T,E>>::get" at=src/streams/math.rs:193 prop=C02,C03,C16 bounded="arity 1 (const generic; complete for this N)" clause="N=1, all inputs symbolic at once: get()==spec: earliest input error returned unchanged; absent inputs skipped, absent iff all absent; present values left-folded with *= in input order; timestamp = newest contributing (C03); holds for every content of the unwritten MaybeUninit slots (C16)"
+//@ob fn="<ProductStream<T,N,E> as Getter<T,E>>::get" at=src/streams/math.rs:193 prop=C02,C03,C16 instance="arity 1 (const generic; complete for this N)" clause="N=1, all inputs symbolic at once: get()==spec: earliest input error returned unchanged; absent inputs skipped, absent iff all absent; present values left-folded with *= in input order; timestamp = newest contributing (C03); holds for every content of the unwritten MaybeUninit slots (C16)"
 nary_harness!(c02_product_n1, ProductStream, tok_mul_assign, 1, 3, [s0]);
-//@ob fn="<ProductStream<T,N,E> as Getter<T,E>>::get" at=src/streams/math.rs:193 prop=C02,C16 bounded="arity 1 (const generic; complete for this N)" clause="N=1, all inputs symbolic at once: purity: a second get() returns a result equal to the first (also independent of the unwritten MaybeUninit slots, C16), every input still holds the output it had and was not updated"
+//@ob fn="<ProductStream<T,N,E> as Getter<T,E>>::get" at=src/streams/math.rs:193 prop=C02,C16 instance="arity 1 (const generic; complete for this N)" clause="N=1, all inputs symbolic at once: purity: a second get() returns a result equal to the first (also independent of the unwritten MaybeUninit slots, C16), every input still holds the output it had and was not updated"
 nary_pure_harness!(c02_product_n1_pure, ProductStream, 1, 3, [s0]);
-//@ob fn="<ProductStream<T,N,E> as Getter<T,E>>::get" at=src/streams/math.rs:193 prop=C02,C03,C16 bounded="arity 2 (const generic; complete for this N)" clause="N=2, all inputs symbolic at once: get()==spec: earliest input error returned unchanged; absent inputs skipped, absent iff all absent; present values left-folded with *= in input order; timestamp = newest contributing (C03); holds for every content of the unwritten MaybeUninit slots (C16)"
+//@ob fn="<ProductStream<T,N,E> as Getter<T,E>>::get" at=src/streams/math.rs:193 prop=C02,C03,C16 instance="arity 2 (const generic; complete for this N)" clause="N=2, all inputs symbolic at once: get()==spec: earliest input error returned unchanged; absent inputs skipped, absent iff all absent; present values left-folded with *= in input order; timestamp = newest contributing (C03); holds for every content of the unwritten MaybeUninit slots (C16)"
 nary_harness!(c02_product_n2, ProductStream, tok_mul_assign, 2, 4, [s0, s1]);
-//@ob fn="<ProductStream<T,N,E> as Getter<T,E>>::get" at=src/streams/math.rs:193 prop=C02,C16 bounded="arity 2 (const generic; complete for this N)" clause="N=2, all inputs symbolic at once: purity: a second get() returns a result equal to the first (also independent of the unwritten MaybeUninit slots, C16), every input still holds the output it had and was not updated"
+//@ob fn="<ProductStream<T,N,E> as Getter<T,E>>::get" at=src/streams/math.rs:193 prop=C02,C16 instance="arity 2 (const generic; complete for this N)" clause="N=2, all inputs symbolic at once: purity: a second get() returns a result equal to the first (also independent of the unwritten MaybeUninit slots, C16), every input still holds the output it had and was not updated"
 nary_pure_harness!(c02_product_n2_pure, ProductStream, 2, 4, [s0, s1]);
-//@ob fn="<ProductStream<T,N,E> as Getter<T,E>>::get" at=src/streams/math.rs:193 prop=C02,C03,C16 bounded="arity 3 (const generic; complete for this N)" clause="N=3, all inputs symbolic at once: get()==spec: earliest input error returned unchanged; absent inputs skipped, absent iff all absent; present values left-folded with *= in input order; timestamp = newest contributing (C03); holds for every content of the unwritten MaybeUninit slots (C16)"
+//@ob fn="<ProductStream<T,N,E> as Getter<T,E>>::get" at=src/streams/math.rs:193 prop=C02,C03,C16 instance="arity 3 (const generic; complete for this N)" clause="N=3, all inputs symbolic at once: get()==spec: earliest input error returned unchanged; absent inputs skipped, absent iff all absent; present values left-folded with *= in input order; timestamp = newest contributing (C03); holds for every content of the unwritten MaybeUninit slots (C16)"
 nary_harness!(c02_product_n3, ProductStream, tok_mul_assign, 3, 5, [s0, s1, s2]);
-//@ob fn="<ProductStream<T,N,E> as Getter<T,E>>::get" at=src/streams/math.rs:193 prop=C02,C16 bounded="arity 3 (const generic; complete for this N)" clause="N=3, all inputs symbolic at once: purity: a second get() returns a result equal to the first (also independent of the unwritten MaybeUninit slots, C16), every input still holds the output it had and was not updated"
+//@ob fn="<ProductStream<T,N,E> as Getter<T,E>>::get" at=src/streams/math.rs:193 prop=C02,C16 instance="arity 3 (const generic; complete for this N)" clause="N=3, all inputs symbolic at once: purity: a second get() returns a result equal to the first (also independent of the unwritten MaybeUninit slots, C16), every input still holds the output it had and was not updated"
 nary_pure_harness!(c02_product_n3_pure, ProductStream, 3, 5, [s0, s1, s2]);
-//@ob fn="<ProductStream<T,N,E> as Getter<T,E>>::get" at=src/streams/math.rs:193 prop=C02,C03,C16 bounded="arity 4 (const generic; complete for this N)" clause="N=4, all inputs symbolic at once: get()==spec: earliest input error returned unchanged; absent inputs skipped, absent iff all absent; present values left-folded with *= in input order; timestamp = newest contributing (C03); holds for every content of the unwritten MaybeUninit slots (C16)"
+//@ob fn="<ProductStream<T,N,E> as Getter<T,E>>::get" at=src/streams/math.rs:193 prop=C02,C03,C16 instance="arity 4 (const generic; complete for this N)" clause="N=4, all inputs symbolic at once: get()==spec: earliest input error returned unchanged; absent inputs skipped, absent iff all absent; present values left-folded with *= in input order; timestamp = newest contributing (C03); holds for every content of the unwritten MaybeUninit slots (C16)"
 nary_harness!(c02_product_n4, ProductStream, tok_mul_assign, 4, 6, [s0, s1, s2, s3]);
-//@ob fn="<ProductStream<T,N,E> as Getter<T,E>>::get" at=src/streams/math.rs:193 prop=C02,C16 bounded="arity 4 (const generic; complete for this N)" clause="N=4, all inputs symbolic at once: purity: a second get() returns a result equal to the first (also independent of the unwritten MaybeUninit slots, C16), every input still holds the output it had and was not updated"
+//@ob fn="<ProductStream<T,N,E> as Getter<T,E>>::get" at=src/streams/math.rs:193 prop=C02,C16 instance="arity 4 (const generic; complete for this N)" clause="N=4, all inputs symbolic at once: purity: a second get() returns a result equal to the first (also independent of the unwritten MaybeUninit slots, C16), every input still holds the output it had and was not updated"
 nary_pure_harness!(c02_product_n4_pure, ProductStream, 4, 6, [s0, s1, s2, s3]);
-//@ob fn="<ProductStream<T,N,E> as Getter<T,E>>::get" at=src/streams/math.rs:193 prop=C02,C03,C16 bounded="arity 5 (const generic; complete for this N)" clause="N=5, all inputs symbolic at once: get()==spec: earliest input error returned unchanged; absent inputs skipped, absent iff all absent; present values left-folded with *= in input order; timestamp = newest contributing (C03); holds for every content of the unwritten MaybeUninit slots (C16)"
+//@ob fn="<ProductStream<T,N,E> as Getter<T,E>>::get" at=src/streams/math.rs:193 prop=C02,C03,C16 instance="arity 5 (const generic; complete for this N)" clause="N=5, all inputs symbolic at once: get()==spec: earliest input error returned unchanged; absent inputs skipped, absent iff all absent; present values left-folded with *= in input order; timestamp = newest contributing (C03); holds for every content of the unwritten MaybeUninit slots (C16)"
 nary_harness!(c02_product_n5, ProductStream, tok_mul_assign, 5, 7, [s0, s1, s2, s3, s4]);
-//@ob fn="<ProductStream<T,N,E> as Getter<T,E>>::get" at=src/streams/math.rs:193 prop=C02,C16 bounded="arity 5 (const generic; complete for this N)" clause="N=5, all inputs symbolic at once: purity: a second get() returns a result equal to the first (also independent of the unwritten MaybeUninit slots, C16), every input still holds the output it had and was not updated"
+//@ob fn="<ProductStream<T,N,E> as Getter<T,E>>::get" at=src/streams/math.rs:193 prop=C02,C16 instance="arity 5 (const generic; complete for this N)" clause="N=5, all inputs symbolic at once: purity: a second get() returns a result equal to the first (also independent of the unwritten MaybeUninit slots, C16), every input still holds the output it had and was not updated"
 nary_pure_harness!(c02_product_n5_pure, ProductStream, 5, 7, [s0, s1, s2, s3, s4]);
-//@ob fn="<ProductStream<T,N,E> as Getter<T,E>>::get" at=src/streams/math.rs:193 prop=C02,C03,C16 tier=thorough bounded="arity 6 (const generic; complete for this N)" clause="N=6, all inputs symbolic at once: get()==spec: earliest input error returned unchanged; absent inputs skipped, absent iff all absent; present values left-folded with *= in input order; timestamp = newest contributing (C03); holds for every content of the unwritten MaybeUninit slots (C16)"
+//@ob fn="<ProductStream<T,N,E> as Getter<T,E>>::get" at=src/streams/math.rs:193 prop=C02,C03,C16 tier=thorough instance="arity 6 (const generic; complete for this N)" clause="N=6, all inputs symbolic at once: get()==spec: earliest input error returned unchanged; absent inputs skipped, absent iff all absent; present values left-folded with *= in input order; timestamp = newest contributing (C03); holds for every content of the unwritten MaybeUninit slots (C16)"
 nary_harness!(c02_product_n6, ProductStream, tok_mul_assign, 6, 8, [s0, s1, s2, s3, s4, s5]);
-//@ob fn="<ProductStream<T,N,E> as Getter<T,E>>::get" at=src/streams/math.rs:193 prop=C02,C16 tier=thorough bounded="arity 6 (const generic; complete for this N)" clause="N=6, all inputs symbolic at once: purity: a second get() returns a result equal to the first (also independent of the unwritten MaybeUninit slots, C16), every input still holds the output it had and was not updated"
+//@ob fn="<ProductStream<T,N,E> as Getter<T,E>>::get" at=src/streams/math.rs:193 prop=C02,C16 tier=thorough instance="arity 6 (const generic; complete for this N)" clause="N=6, all inputs symbolic at once: purity: a second get() returns a result equal to the first (also independent of the unwritten MaybeUninit slots, C16), every input still holds the output it had and was not updated"
 nary_pure_harness!(c02_product_n6_pure, ProductStream, 6, 8, [s0, s1, s2, s3, s4, s5]);
-//@ob fn="<ProductStream<T,N,E> as Getter<T,E>>::get" at=src/streams/math.rs:193 prop=C02,C03,C16 tier=thorough bounded="arity 7 (const generic; complete for this N)" clause="N=7, all inputs symbolic at once: get()==spec: earliest input error returned unchanged; absent inputs skipped, absent iff all absent; present values left-folded with *= in input order; timestamp = newest contributing (C03); holds for every content of the unwritten MaybeUninit slots (C16)"
+//@ob fn="<ProductStream<T,N,E> as Getter<T,E>>::get" at=src/streams/math.rs:193 prop=C02,C03,C16 tier=thorough instance="arity 7 (const generic; complete for this N)" clause="N=7, all inputs symbolic at once: get()==spec: earliest input error returned unchanged; absent inputs skipped, absent iff all absent; present values left-folded with *= in input order; timestamp = newest contributing (C03); holds for every content of the unwritten MaybeUninit slots (C16)"
 nary_harness!(c02_product_n7, ProductStream, tok_mul_assign, 7, 9, [s0, s1, s2, s3, s4, s5, s6]);
-//@ob fn="<ProductStream<T,N,E> as Getter<T,E>>::get" at=src/streams/math.rs:193 prop=C02,C16 tier=thorough bounded="arity 7 (const generic; complete for this N)" clause="N=7, all inputs symbolic at once: purity: a second get() returns a result equal to the first (also independent of the unwritten MaybeUninit slots, C16), every input still holds the output it had and was not updated"
+//@ob fn="<ProductStream<T,N,E> as Getter<T,E>>::get" at=src/streams/math.rs:193 prop=C02,C16 tier=thorough instance="arity 7 (const generic; complete for this N)" clause="N=7, all inputs symbolic at once: purity: a second get() returns a result equal to the first (also independent of the unwritten MaybeUninit slots, C16), every input still holds the output it had and was not updated"
 nary_pure_harness!(c02_product_n7_pure, ProductStream, 7, 9, [s0, s1, s2, s3, s4, s5, s6]);
-//@ob fn="<ProductStream<T,N,E> as Getter<T,E>>::get" at=src/streams/math.rs:193 prop=C02,C03,C16 tier=thorough bounded="arity 8 (const generic; complete for this N)" clause="N=8, all inputs symbolic at once: get()==spec: earliest input error returned unchanged; absent inputs skipped, absent iff all absent; present values left-folded with *= in input order; timestamp = newest contributing (C03); holds for every content of the unwritten MaybeUninit slots (C16)"
+//@ob fn="<ProductStream<T,N,E> as Getter<T,E>>::get" at=src/streams/math.rs:193 prop=C02,C03,C16 tier=thorough instance="arity 8 (const generic; complete for this N)" clause="N=8, all inputs symbolic at once: get()==spec: earliest input error returned unchanged; absent inputs skipped, absent iff all absent; present values left-folded with *= in input order; timestamp = newest contributing (C03); holds for every content of the unwritten MaybeUninit slots (C16)"
 nary_harness!(c02_product_n8, ProductStream, tok_mul_assign, 8, 10, [s0, s1, s2, s3, s4, s5, s6, s7]);
-//@ob fn="<ProductStream<T,N,E> as Getter<T,E>>::get" at=src/streams/math.rs:193 prop=C02,C16 tier=thorough bounded="arity 8 (const generic; complete for this N)" clause="N=8, all inputs symbolic at once: purity: a second get() returns a result equal to the first (also independent of the unwritten MaybeUninit slots, C16), every input still holds the output it had and was not updated"
+//@ob fn="<ProductStream<T,N,E> as Getter<T,E>>::get" at=src/streams/math.rs:193 prop=C02,C16 tier=thorough instance="arity 8 (const generic; complete for this N)" clause="N=8, all inputs symbolic at once: purity: a second get() returns a result equal to the first (also independent of the unwritten MaybeUninit slots, C16), every input still holds the output it had and was not updated"
 nary_pure_harness!(c02_product_n8_pure, ProductStream, 8, 10, [s0, s1, s2, s3, s4, s5, s6, s7]);
 
 // ---------------------------------------------------------------------------------------------------------------
